@@ -37,11 +37,13 @@ def expected_names(case, compact, more_out):
     names = {e["id"]: e["name"] for grp in ("links", "origins", "dests") for e in desc[grp]}
     G3 = ("states", "actions", "disturbances")
     nin, nout = [], []
+    fx = set(case.fixed)
     if compact <= 0:
         for grp in G3:
             for eid in order:
                 for v, n in lay[eid][grp]:
-                    nin.append(f"{v}_{names[eid]}")
+                    if (eid, v) not in fx:
+                        nin.append(f"{v}_{names[eid]}")
         nin += list(case.parameters)
         for eid in order:
             for v, n in lay[eid]["states"]:
@@ -56,7 +58,7 @@ def expected_names(case, compact, more_out):
         for grp in G3:
             for eid in order:
                 for v, n in lay[eid][grp]:
-                    if v not in seen[grp]:
+                    if v not in seen[grp] and (eid, v) not in fx:
                         seen[grp].append(v)
         if compact == 1:
             nin = seen["states"] + seen["actions"] + seen["disturbances"]
@@ -88,8 +90,9 @@ def expected_sizes(case, compact, more_out):
     linkset = {l["id"]: l["N"] for l in desc["links"]}
     orgs = [e for e in order if e in {o["id"] for o in desc["origins"]}]
     links = [e for e in order if e in linkset]
+    fx = set(case.fixed)
     if compact <= 0:
-        sin = [n for grp in G3 for eid in order for _, n in lay[eid][grp]] + [1] * len(case.parameters)
+        sin = [n for grp in G3 for eid in order for v_, n in lay[eid][grp] if (eid, v_) not in fx] + [1] * len(case.parameters)
         sout = [n for eid in order for _, n in lay[eid]["states"]]
         if more_out:
             sout += [linkset[e] for e in links] + [1] * len(orgs)
@@ -98,6 +101,8 @@ def expected_sizes(case, compact, more_out):
     for grp in G3:
         for eid in order:
             for v, n in lay[eid][grp]:
+                if (eid, v) in fx:
+                    continue
                 by[grp][v] = by[grp].get(v, 0) + n
     nq = sum(linkset[e] for e in links)
     if compact == 1:
@@ -111,9 +116,9 @@ def expected_sizes(case, compact, more_out):
     return sin, sout
 
 
-def n_scalars(desc):
+def n_scalars(desc, fixed=()):
     lay = D.var_layout(desc)
-    return sum(n for L in lay.values() for grp in L.values() for _, n in grp)
+    return sum(n for eid, L in lay.items() for grp in L.values() for v_, n in grp if (eid, v_) not in fixed)
 
 
 def one_case(M, rec, rng, g, desc, pars, st, clashing=False):
@@ -124,7 +129,11 @@ def one_case(M, rec, rng, g, desc, pars, st, clashing=False):
         opts = rng.choice(({"positive_init_density": True}, {"positive_init_speed": True}, {"positive_init_queue": True},
                            {"positive_init_density": True, "positive_init_queue": True}))
     try:
-        case = CC.CompileCase(M, rng, desc, pars, st, keys, opts, own_symbols=(rng.random() < 0.5 and not clashing))
+        _, fixed_from = g.values(desc, allow_inf=False)
+        case = CC.CompileCase(M, rng, desc, pars, st, keys, opts, own_symbols=(rng.random() < 0.5 and not clashing),
+                              fixed_from=fixed_from, fixed_prob=0.3)
+        if case.fixed:
+            rec.count("cases_with_variables_supplied_as_numbers")
     except Exception as e:
         rec.count("symbolic_step_failed")
         rec.seen("failed", repr(e)[:120])
@@ -160,9 +169,9 @@ def one_case(M, rec, rng, g, desc, pars, st, clashing=False):
         if F.get_free():
             rec.violation(f"{PROP}:compact={compact}: compiled function has free symbols", dict(ctx, compact=compact, free=str(F.get_free())))
         tot = sum(F.size1_in(i) * F.size2_in(i) for i in range(F.n_in()))
-        if tot != n_scalars(desc) + len(case.parameters):
+        if tot != n_scalars(desc, case.fixed) + len(case.parameters):
             rec.violation(f"{PROP}:compact={compact}: total argument size differs from the number of independent variables + parameters",
-                          dict(ctx, compact=compact, total=tot, expected=n_scalars(desc) + len(case.parameters)))
+                          dict(ctx, compact=compact, total=tot, expected=n_scalars(desc, case.fixed) + len(case.parameters)))
         nin, nout = expected_names(case, compact, more_out)
         # the statement fixes order and content, not the spelling of names: a different spelling is only
         # counted; what must match is the sequence of argument/result SIZES implied by the documented
@@ -181,6 +190,7 @@ def one_case(M, rec, rng, g, desc, pars, st, clashing=False):
     # numeric points: no init clamp ambiguity (non-negative inputs)
     for _pt in range(2):
         _, vals = g.values(desc, allow_inf=False)
+        vals = case.effective(vals)
         if R.is_singular(desc, vals):
             rec.count("skipped_singular")
             continue
@@ -196,6 +206,8 @@ def one_case(M, rec, rng, g, desc, pars, st, clashing=False):
         for eid, L in lay.items():
             for grp in ("states", "actions", "disturbances"):
                 for v, n in L[grp]:
+                    if (eid, v) in case.fixed:
+                        continue
                     x = vals[eid][v]
                     byname[f"{v}_{names[eid]}"] = cs.DM(x if isinstance(x, list) else [x])
         for k_, s_ in case.parameters.items():
